@@ -363,6 +363,16 @@ class History(object):
             new = old[:1 + arg % 33]
         elif kind == "extend":
             new = old + bytes([arg % 256])
+        elif kind == "swap":
+            # the (genuine, unaltered) ticket of ANOTHER session of this client: a ticket without its secret
+            others = []
+            for jj, o in enumerate(self.csess):
+                ol = o.tls_1_0_tickets if sess.tls_1_0_tickets else o.tickets
+                if jj != j and o is not sess and ol and bytes(ol[0].ticket) != old:
+                    others.append(bytes(ol[0].ticket))
+            if not others:
+                return False
+            new = others[arg % len(others)]
         elif kind == "foreign":
             # a well-formed ticket sealed by a server key this deployment never had
             new = self._foreign_ticket(old)
@@ -573,6 +583,12 @@ class History(object):
             msg.cipher_suites = [CipherSuite.TLS_EMPTY_RENEGOTIATION_INFO_SCSV] + list(e[1])
         elif kind == "setsid":
             msg.session_id = bytearray(bytes.fromhex(e[1]))
+        elif kind == "badbinder":
+            psk = msg.getExtension(ExtensionType.pre_shared_key)
+            if psk is not None and e[1] < len(psk.binders):
+                b = bytearray(psk.binders[e[1]])
+                b[0] ^= 1
+                psk.binders[e[1]] = b
         elif kind == "setticket":
             drop(ExtensionType.session_ticket)
             if e[1] is not None:
@@ -632,6 +648,8 @@ class History(object):
                     out.append("setsid:" + (e[1] or "-"))
                 elif e[0] == "setticket":
                     out.append("setticket:" + ("none" if e[1] is None else (e[1] or "-")))
+                elif e[0] == "badbinder":
+                    out.append("badbinder:%d" % e[1])
                 else:
                     out.append(e[0])
             return ";".join(out) or "-"
@@ -812,7 +830,8 @@ class Oracle(object):
         self.servers[i]["inserts"].append((bytes(sid), self.h.clock.now["server"]))
 
     def tampered(self, j, old, new, kind):
-        self.altered.add(bytes(new))
+        if kind != "swap":
+            self.altered.add(bytes(new))
 
     def value_error(self, obs):
         pass
@@ -882,6 +901,12 @@ class Oracle(object):
                 return (mech, None, "bad", ["altered-or-forged-ticket" if bytes(t) in self.altered else "unknown-ticket"])
             j = rec["sess"]
             s = self.sessions[j]
+            if obs["offer"] is not None and obs["offer"] != j:
+                # a genuine ticket, but not of the session (secret) the client holds: nothing to fall back from
+                # cleanly (the server cannot know), but it must never yield a resumed connection
+                return (mech, j, "inconsistent", ["ticket-of-another-session"])
+            if any(e[0] == "badbinder" and e[1] == 0 for e in obs["edits"]):
+                return (mech, j, "inconsistent", ["binder-invalid"])
             if rec["key"] not in [bytes(k) for k in scfg.keys]:
                 reasons.append("key-not-current")
             age = now_s - rec["issued"]
@@ -1070,7 +1095,7 @@ def L_etm(conn):
 K = [bytes([i + 1]) * 32 for i in range(6)]          # ticket keys (aes256gcm needs 32 bytes)
 CLOSE_KINDS = ["clean", "fatal_c2s", "fatal_s2c", "fatal_server_only", "fatal_client_only", "abrupt_both",
                "abrupt_client", "abrupt_server", "abrupt_ignored"]
-TAMPER_KINDS = ["flip_nonce", "flip_tag", "flip_body", "truncate", "short", "extend", "foreign"]
+TAMPER_KINDS = ["flip_nonce", "flip_tag", "flip_body", "truncate", "short", "extend", "foreign", "swap"]
 
 
 def base_cfgs(ver, mech, life=1000, cap=4, age=600, ciphers=None, sni="host.example", **kw):
@@ -1207,6 +1232,40 @@ def scenario_tamper(h, ver, mech, kind, arg):
     if not h.tamper(j, kind, arg):
         return
     h.handshake(s, ccfg, offer=j)
+    h.handshake(s, ccfg, offer=j)
+
+
+def scenario_swap(h, ver, mech, same_suite):
+    """a genuine ticket of another session is offered by a client that holds a different secret"""
+    scfg, ccfg = base_cfgs(ver, mech)
+    s = h.new_server(scfg)
+    c0 = h.handshake(s, ccfg)
+    j0 = last_session(h)
+    c2cfg = CliCfg.from_json(ccfg.to_json())
+    if not same_suite:
+        c2cfg.ciphers = list(reversed(c2cfg.ciphers))[:1]
+    c1 = h.handshake(s, c2cfg)
+    j1 = last_session(h)
+    if j0 is None or j1 is None or j0 == j1:
+        return
+    h.close(c0.k, "clean")
+    h.close(c1.k, "clean")
+    if not h.tamper(j1, "swap", 0):
+        return
+    h.handshake(s, c2cfg, offer=j1)
+    h.handshake(s, ccfg, offer=j0)
+
+
+def scenario_binder(h, i):
+    ver = (3, 4)
+    scfg, ccfg = base_cfgs(ver, "psk13")
+    s = h.new_server(scfg)
+    c0 = h.handshake(s, ccfg)
+    j = last_session(h)
+    if j is None:
+        return
+    h.close(c0.k, "clean")
+    h.handshake(s, ccfg, offer=j, edits=[("badbinder", i)])
     h.handshake(s, ccfg, offer=j)
 
 
@@ -1368,6 +1427,9 @@ def scripted(ctx):
                 tk = [(k, a) for k in TAMPER_KINDS for a in ((0, 7, 13) if thorough else (5,))]
                 for kind, arg in tk:
                     go(scenario_tamper, ver, mech, kind, arg)
+            if mech != "id":
+                for same in (True, False):
+                    go(scenario_swap, ver, mech, same)
             if mech in ("id", "both"):
                 for n1, n2 in ([(2, 1), (1, 1), (3, 0)] if thorough else [(2, 1)]):
                     go(scenario_evict, ver, mech, n1, n2)
@@ -1396,6 +1458,8 @@ def scripted(ctx):
                         ([("setticket", None)], True, True, None),
                         ([("dropems",), ("setsni", "other.example")], True, True, None)]:
                     go(scenario_edit, ver, mech, edits, cems, cetm, ciph)
+    go(scenario_binder, 0)
+    go(scenario_binder, 1)
     for hn in ("sha256", "sha384"):
         go(scenario_external_psk, hn, True, False)
         go(scenario_external_psk, hn, True, True)
@@ -1441,6 +1505,8 @@ def random_history(ctx, idx):
                 if offer is not None and (3, 0) < ver < (3, 4) and rng.random() < 0.15:
                     edits = [rng.choice([("dropems",), ("addems",), ("dropetm",), ("addetm",), ("setsni", "other.example"),
                                          ("setsni", ""), ("setsid", "ab" * 32), ("setticket", ""), ("setticket", "ef" * 70)])]
+                if offer is not None and ver >= (3, 4) and rng.random() < 0.06:
+                    edits = [("badbinder", 0)]
                 h.handshake(s, cur, offer=offer, edits=edits)
             elif r < 0.58 and openc:
                 h.close(rng.choice(openc), rng.choice(CLOSE_KINDS))
